@@ -100,15 +100,23 @@ func firstBad(vs []string) string {
 	return "ok"
 }
 
+// arg returns args[i], or "0" when the case line has no such argument
+func arg(args []string, i int) string {
+	if i < len(args) {
+		return args[i]
+	}
+	return "0"
+}
+
 func init() {
 	debugWhy = os.Getenv("VERIF_EXPORT_WHY") != ""
 
 	core.Register("sqltext", func(args []string) string {
-		return showTexts(sqlTexts(args[0], decodeDump(args[1])))
+		return showTexts(sqlTexts(args[0], decodeDump(args[1], arg(args, 2))))
 	})
 
 	core.Register("sqlsafe", func(args []string) string {
-		r := decodeDump(args[1])
+		r := decodeDump(args[1], arg(args, 2))
 		texts := sqlTexts(args[0], r)
 		var vs []string
 		switch args[0] {
@@ -133,11 +141,11 @@ func init() {
 	})
 
 	core.Register("csvtext", func(args []string) string {
-		return showTexts(csvTexts(args[0], decodeDump(args[1])))
+		return showTexts(csvTexts(args[0], decodeDump(args[1], arg(args, 2))))
 	})
 
 	core.Register("csvsafe", func(args []string) string {
-		r := decodeDump(args[1])
+		r := decodeDump(args[1], arg(args, 3))
 		texts := csvTexts(args[0], r)
 		// expected records per table, in dump order
 		var expected [][][]string
@@ -160,7 +168,7 @@ func init() {
 			for i := range r.Databases {
 				var secs []section
 				for j := range r.Databases[i].Tables {
-					secs = append(secs, section{r.Databases[i].Name, r.Databases[i].Tables[j].Name, expected[k]})
+					secs = append(secs, section{r.Databases[i].Name, r.Databases[i].Tables[j].Name, expected[k], &r.Databases[i].Tables[j]})
 					k++
 				}
 				if args[0] == "1" {
@@ -173,8 +181,8 @@ func init() {
 			}
 		default:
 			for i := range r.Databases {
-				for range r.Databases[i].Tables {
-					vs = append(vs, csvTableVerdict(expected[k], texts[k]))
+				for j := range r.Databases[i].Tables {
+					vs = append(vs, csvTableVerdict(&r.Databases[i].Tables[j], expected[k], texts[k]))
 					k++
 				}
 			}
@@ -184,7 +192,7 @@ func init() {
 
 	// exportmut: hostile dumps through every export entry point; nothing may panic (C10)
 	core.Register("exportmut", func(args []string) string {
-		r := decodeDump(args[0])
+		r := decodeDump(args[0], arg(args, 1))
 		for _, l := range []string{"0", "1", "2"} {
 			sqlTexts(l, r)
 			csvTexts(l, r)
